@@ -235,8 +235,11 @@ def seq_case(draw):
     labels = draw(st.lists(st.integers(-2, 4), min_size=n, max_size=n).map(lambda ls: ls if any(x >= 0 for x in ls) else [0] + ls[1:]))
     steps = []
     for _ in range(draw(st.integers(2, 5))):
-        kind = draw(st.sampled_from(["call", "call", "call_veto_all", "add_atoms"]))
-        if kind == "add_atoms":
+        kind = draw(st.sampled_from(["call", "call", "call_veto_all", "add_atoms", "relabel_sibling"]))
+        if kind == "relabel_sibling":
+            # another move object built from the very same label array is given a new labelling of the same length
+            steps.append(["relabel_sibling", [draw(st.integers(-3, 6)) for _ in range(12)]])
+        elif kind == "add_atoms":
             steps.append(["add_atoms", draw(st.integers(1, 2)), draw(st.sampled_from(["existing", "auto", "negative"])), draw(st.integers(0, 10))])
         else:
             steps.append([kind, draw(st.one_of(st.none(), st.integers(0, 10)))])
@@ -251,7 +254,9 @@ def run_seq(case):
     atoms = Atoms("H" * len(case["pos"]), positions=case["pos"], cell=[8, 8, 8], pbc=True)
     ctx = DisplacementContext(atoms, np.random.Generator(np.random.PCG64(case["seed"])))
     rec = []
-    move = DisplacementMove(np.array(case["labels"], dtype=int), make_op(case["op"], case["size"], rec))
+    shared_array = np.array(case["labels"], dtype=int)
+    move = DisplacementMove(shared_array, make_op(case["op"], case["size"], rec))
+    sibling = DisplacementMove(shared_array, make_op("Ball", 0.1, []))  # users build several moves from one array
     move.max_attempts = case["max_attempts"]
     veto_all = {"on": False}
     move.check_move = lambda *_a, **_k: not veto_all["on"]
@@ -263,6 +268,11 @@ def run_seq(case):
         with warnings.catch_warnings():
             warnings.simplefilter("ignore")
             for si, st_ in enumerate(case["steps"]):
+                if st_[0] == "relabel_sibling":
+                    sibling.set_labels(np.array(st_[1][: len(np.asarray(sibling.labels))], dtype=int))
+                    labs.append("sibling-relabelled")
+                    nontrivial = True
+                    continue
                 if st_[0] == "add_atoms":
                     k, how, pick = st_[1], st_[2], st_[3]
                     elig = sorted({l for l in model if l >= 0})
